@@ -37,8 +37,9 @@ fn main() {
     let (consumed, _) = fgv::nd::replay::consumed();
     let esc = |s: &str| s.replace('\\', "\\\\").replace('"', "\\\"").replace('\n', " ");
     let covered: Vec<String> = fgv::nd::replay::covered_list().iter().map(|c| format!("\"{}\"", esc(c))).collect();
+    let trace: Vec<String> = fgv::nd::replay::log_list().iter().map(|c| format!("\"{}\"", esc(c))).collect();
     println!(
-        "{{\"harness\":\"{}\",\"panic\":{},\"consumed\":{},\"given\":{},\"covered\":[{}]}}",
+        "{{\"harness\":\"{}\",\"panic\":{},\"consumed\":{},\"given\":{},\"covered\":[{}],\"trace\":[{}]}}",
         esc(&name),
         match &msg {
             Some(m) => format!("\"{}\"", esc(m)),
@@ -46,6 +47,7 @@ fn main() {
         },
         consumed,
         given,
-        covered.join(",")
+        covered.join(","),
+        trace.join(",")
     );
 }
